@@ -59,10 +59,21 @@ ssize_t recv(int fd, void *buf, size_t n, int flags)
   return (ssize_t) r;
 }
 
+static void c19_log_send(uint32_t k, int fd, const uint8_t *src, size_t n, int32_t ret)
+{
+  uint32_t j, i;
+  /* the record index is compared against constants: a store through a symbolic index into the (large) script object stalls symex */
+  for (j = 0; j < C19_SENDLOG; j++)
+    if (k == j) {
+      C19.sent[j].fd = fd; C19.sent[j].len_asked = (uint32_t) n; C19.sent[j].ret = ret;
+      for (i = 0; i < C19_SENDBYTES; i++)
+        if (i < n) C19.sent[j].bytes[i] = src[i];       /* reads the bytes: the buffer handed to send() must be that long */
+    }
+}
+
 ssize_t send(int fd, const void *buf, size_t n, int flags)
 {
-  uint32_t k = C19.send_calls, r, i;
-  const uint8_t *src = (const uint8_t *) buf;
+  uint32_t k = C19.send_calls, r;
   (void) flags;
   assert(fd >= 0);
   assert(buf != NULL && n > 0);
@@ -70,16 +81,12 @@ ssize_t send(int fd, const void *buf, size_t n, int flags)
   if (k >= C19_NIO) { errno = EAGAIN; return -1; }
   if (C19.send_ret[k] < 0) {
     errno = C19.send_err[k] == 0 ? EAGAIN : C19.send_err[k] == 1 ? EINTR : EPIPE;
-    if (k < C19_SENDLOG) { C19.sent[k].fd = fd; C19.sent[k].len_asked = (uint32_t) n; C19.sent[k].ret = -1; }
+    c19_log_send(k, fd, (const uint8_t *) buf, 0, -1);
     return -1;
   }
   r = (uint32_t) C19.send_ret[k];
   if (r > n) r = (uint32_t) n;
-  if (k < C19_SENDLOG) {
-    C19.sent[k].fd = fd; C19.sent[k].len_asked = (uint32_t) n; C19.sent[k].ret = (int32_t) r;
-    for (i = 0; i < C19_SENDBYTES; i++)
-      if (i < n) C19.sent[k].bytes[i] = src[i];       /* reads all n bytes: the buffer must be that long */
-  }
+  c19_log_send(k, fd, (const uint8_t *) buf, n, (int32_t) r);
   return (ssize_t) r;
 }
 
